@@ -89,7 +89,7 @@ func (p vC20PktSpec) String() string {
 
 func vC20GenPktSpec(t *rapid.T, seq int, punchBias int, maxLen int) vC20PktSpec {
 	var p vC20PktSpec
-	p.form = rapid.IntRange(0, 2).Draw(t, "addrForm")
+	p.form = rapid.IntRange(0, vC20AddrForms-1).Draw(t, "addrForm")
 	p.seed = rapid.Uint64().Draw(t, "pseed")
 	switch c := rapid.IntRange(0, 9+punchBias).Draw(t, "pclass"); {
 	case c <= 1:
